@@ -14,8 +14,10 @@ head = ('Measured on the unchanged tree (%s tier, seed %s, all 20 checks started
         'cargo builds; table written by `tools/measure_table.py` from evidence/*.json):\n\n'
         '| id | theorems audited | operation lines compared with the model / with the spec | direct oracle checks | wall |\n|----|----|----|----|----|\n' % (tier, seed))
 s = open('/verif/DESIGN.md').read()
-m = re.search(r'Measured on the unchanged tree \(.*?\n\n\| id \|.*?\n\|----.*?\n(?:\| C\d\d .*\n)+', s, re.S)
+m = re.search(r'Measured on the unchanged tree \([^|]*?\n\n\| id \|[^\n]*\n\|----[^\n]*\n(?:\| C\d\d [^\n]*\n)+', s)
 assert m, 'table not found'
+before = s.count('\n')
 s = s[:m.start()] + head + '\n'.join(rows) + '\n' + s[m.end():]
+assert abs(s.count('\n') - before) < 10, 'the rewrite would change more than the table'
 open('/verif/DESIGN.md', 'w').write(s)
 print('table rewritten:', len(rows), 'rows')
